@@ -730,6 +730,9 @@ package agent
 //@ iface InspectorClassLike.Make
 //@   nopanic
 //@   ensures result != nil
+//@ func (*inspectorClass_).Make
+//@   props C06 C19
+//@   implements InspectorClassLike.Make
 //@ iface InspectorLike.ImplementsAspect
 //@   nopanic
 //@ iface InspectorLike.IsDefined
